@@ -248,7 +248,14 @@ namespace Track
 	  std::optional<unsigned int> found = find_record_address_mark();
 	  if (!found)
 	    break;
-	  if (thisbit - id_end > max_id_to_data_mark_bits)
+	  // If another ID field begins between the ID field we accepted
+	  // and this record mark, the record belongs to that later ID
+	  // (our own data field is missing), however close it is.
+	  const auto next_id = bits.scan_for(id_end,
+					     0xAAAAAAAAF57E,
+					     0xFFFFFFFFFFFF);
+	  const bool id_intervenes = next_id && (next_id->first + 1u) < thisbit;
+	  if (id_intervenes || thisbit - id_end > max_id_to_data_mark_bits)
 	    {
 	      // This mark is too far from the ID field to belong to it.
 	      // Forget the ID and resume the search for an ID field
